@@ -24,6 +24,9 @@ type GenOpts struct {
 	ForcePos     bool // every production carries Pos, EndPos and Tokens
 	AllowLeftRec bool // C08: place @@ anywhere, do not filter left-recursive grammars
 	OddLits      bool // C14: literals needing escapes (quotes, backslash, non-ASCII, blanks)
+	MoreUnions   bool // always declare unions when there are enough productions, and prefer them as @@ targets
+	EOFRefs      bool // alternatives may end in an explicit EOF reference: ( ";" | EOF )
+	CatchAll     int  // out of 10: the root becomes ( body )? followed by a capture-everything tail, so that skipping the body still parses
 }
 
 type genState struct {
@@ -81,7 +84,18 @@ func generateOnce(r *mon.RNG, id string, o *GenOpts) *Grammar {
 		ptrRecv[i] = r.Chance(1, 3)
 	}
 	// Unions over non-nullable productions (index >= 1).
-	if o.Unions && s.n >= 3 && r.Chance(1, 2) {
+	if o.MoreUnions && s.n < 3 {
+		s.n = 3 + r.Intn(2)
+		if s.n > o.MaxProds {
+			s.n = o.MaxProds
+		}
+		s.declNull = make([]bool, s.n)
+		ptrRecv = make([]bool, s.n)
+		for i := range ptrRecv {
+			ptrRecv[i] = r.Chance(1, 3)
+		}
+	}
+	if o.Unions && s.n >= 3 && (o.MoreUnions || r.Chance(1, 2)) {
 		nu := 1 + r.Intn(2)
 		for ui := 0; ui < nu; ui++ {
 			var cand []int
@@ -126,6 +140,26 @@ func generateOnce(r *mon.RNG, id string, o *GenOpts) *Grammar {
 		if e.Op == "alt" && false {
 			_ = e
 		}
+		if i == 0 && r.Intn(10) < o.CatchAll {
+			// ( body )? @( any token )* : an abandoned body leaves an alternative successful reading
+			var alts []*Expr
+			for _, t := range s.refs {
+				alts = append(alts, &Expr{Op: "ref", Typ: t})
+			}
+			if o.Profile == ProfDefault || o.Profile == ProfScanCfg {
+				for _, l := range []string{"(", ")", ",", ";", "+", "-"} {
+					alts = append(alts, &Expr{Op: "lit", Text: l})
+				}
+			}
+			tail := &Expr{Op: "grp", Mode: "*", Kids: []*Expr{{Op: "cap", Kids: []*Expr{{Op: "grp", Kids: []*Expr{{Op: "alt", Kids: alts}}}}}}}
+			body := e
+			if body.Op == "alt" || body.Op == "seq" {
+				body = &Expr{Op: "grp", Mode: "?", Kids: []*Expr{body}}
+			} else {
+				body = &Expr{Op: "grp", Mode: "?", Kids: []*Expr{{Op: "grp", Kids: []*Expr{body}}}}
+			}
+			e = &Expr{Op: "seq", Kids: []*Expr{body, tail}}
+		}
 		p.Expr = e
 		s.g.Prods[i] = p
 		pc.assignFields(p)
@@ -138,13 +172,16 @@ type prodGen struct {
 	s      *genState
 	idx    int
 	budget int
+	loop   int // nesting depth of repetition bodies being generated
 }
 
 func (pc *prodGen) nullable(e *Expr) bool {
 	switch e.Op {
 	case "lit":
 		return e.Text == ""
-	case "ref", "neg":
+	case "ref":
+		return e.Typ == "EOF"
+	case "neg":
 		return false
 	case "look":
 		return true
@@ -252,6 +289,9 @@ func (pc *prodGen) alt(depth int, consumed bool) *Expr {
 			}
 			a.Kids = append(a.Kids, k)
 			prev = k
+		}
+		if pc.s.o.EOFRefs && pc.loop == 0 && r.Chance(1, 5) {
+			a.Kids = append(a.Kids, &Expr{Op: "ref", Typ: "EOF"})
 		}
 		return a
 	}
@@ -436,6 +476,9 @@ func (pc *prodGen) subTarget(consumed bool) string {
 	for _, u := range s.g.Unions {
 		if consumed || s.unionMin[u.Name] > pc.idx {
 			cand = append(cand, u.Name, u.Name)
+			if s.o.MoreUnions {
+				cand = append(cand, u.Name, u.Name, u.Name)
+			}
 		}
 	}
 	if len(cand) == 0 {
@@ -485,6 +528,9 @@ func (pc *prodGen) term(depth int, consumed bool) *Expr {
 			mode = "!"
 		}
 		var body *Expr
+		if mode == "*" || mode == "+" {
+			pc.loop++
+		}
 		if r.Chance(1, 3) {
 			// modifier on a single term: @x*, "a"+, @@?
 			body = pc.term(depth-1, consumed)
@@ -493,6 +539,9 @@ func (pc *prodGen) term(depth int, consumed bool) *Expr {
 			}
 		} else {
 			body = pc.alt(depth-1, consumed)
+		}
+		if mode == "*" || mode == "+" {
+			pc.loop--
 		}
 		if mode == "!" {
 			// typical use: a group of optionals that must not all be absent
